@@ -23,12 +23,19 @@ RECIPES = {
     "tfrec": ("tfrec", 2, [("root", [("train", 3), ("test", 1)])]),
 }
 
+# larger recipes used by single checks only (not part of the family loops)
+EXTRA = {
+    "many64": ("fb", 1, [("root", [("train", 64)])]),
+    "many120": ("fb", 1, [("root", [("train", 120)])]),
+    "many120npz": ("npz", 1, [("root", [("train", 120)])]),
+}
+
 
 def build(root: Path, name: str, compression=None, hashes=("sha256",)):
     """Create the dataset; returns (dataset, ref: split -> ids in order,
     struct)."""
     from sedpack.io.dataset_filler import DatasetFiller
-    fmt, eps, sessions = RECIPES[name]
+    fmt, eps, sessions = RECIPES.get(name) or EXTRA[name]
     dataset = D.create(root, fmt=fmt, eps=eps, compression=compression,
                        hashes=hashes)
     ref: dict = {}
